@@ -39,7 +39,42 @@ class C08(Prop):
     assumptions = ['determinism "across processes" is the absence of any other input of the model function; '
                    'the children exercise hash seed, set construction order and process identity']
 
+    def widen(self, rng, c):
+        """many ports of one direction: an existing port is cloned under further names, selections name 5-9 of them
+        (long lists are where an abbreviation, a slice or a dict/set round trip of the names shows)"""
+        side = rng.choice(['requires', 'provides'])
+        src_ports = [p for p in c['_info']['ports'] if p['dir'] == side and not p['injected']]
+        if not src_ports:
+            return c
+        comp = G.find_elem(c['src'], lambda e: e['k'] in ('component', 'system'))
+        have = {p['name'] for p in c['_info']['ports']}
+        extra = [n for n in rng.sample(['buzzer', 'fan', 'heater', 'lamp', 'sensor', 'timer', 'valve', 'zz9', 'Alpha', 'b_2', 'motor'], 9)
+                 if n not in have][:rng.randint(4, 8)]
+        proto_i = src_ports[0]
+        proto_s = next(p for p in comp['ports'] if p['name'] == proto_i['name'])
+        for n in extra:
+            comp['ports'].append(dict(proto_s, name=n))
+            c['_info']['ports'].append(dict(proto_i, name=n))
+        c['ast'] = M.enc_root(G.strip_private(c['src']))
+        names = [p['name'] for p in c['_info']['ports'] if p['dir'] == side and not p['injected']]
+        k = rng.randint(5, len(names)) if len(names) >= 5 else len(names)
+        a = rng.sample(names, k)
+        b = [x for x in names if x not in a]
+        ks, km = ('rsts', 'rmts') if side == 'requires' else ('psts', 'pmts')
+        if side == 'requires' and b and rng.random() < 0.5:
+            c['cfg']['ports'][ks], c['cfg']['ports'][km] = {'names': a}, {'names': b}
+        elif side == 'requires':
+            c['cfg']['ports'][ks], c['cfg']['ports'][km] = rng.choice([({'names': a}, {'w': 'remaining'}), ({'w': 'remaining'}, {'names': a})])
+        else:
+            c['cfg']['ports'][ks], c['cfg']['ports'][km] = rng.choice([({'names': names}, {'w': 'none'}), ({'w': 'none'}, {'names': names})])
+        return c
+
     def gen_named_case(self, rng):
+        if rng.random() < 0.3:
+            for _ in range(50):
+                c = G.gen_case(rng, want_mc=False)
+                if c['_info']['ports']:
+                    return strip(self.widen(rng, c))
         for _ in range(200):
             c = G.gen_case(rng, want_mc=False)
             if rng.random() < 0.5:
